@@ -30,6 +30,11 @@ INPLACE_METHODS = {
 }
 
 
+STATE_SETTERS = {"seterr", "seterrcall", "set_printoptions", "setbufsize", "setrecursionlimit", "simplefilter",
+                 "filterwarnings", "resetwarnings", "setswitchinterval", "set_string_function", "putenv", "chdir",
+                 "setlocale", "seed"}
+
+
 class SimInterrupt(KeyboardInterrupt):
     """Injected asynchronous interrupt (Ctrl-C / task cancellation)."""
 
@@ -235,6 +240,9 @@ def _scan_file(path: str, fidx: int) -> None:
                 self._mark(node)
             if isinstance(node.func, ast.Attribute) and node.func.attr in INPLACE_METHODS:
                 self._mark(node)
+            name = node.func.attr if isinstance(node.func, ast.Attribute) else getattr(node.func, "id", None)
+            if name in STATE_SETTERS:
+                self._mark(node)   # a write to process-wide state (numpy error handling, print options, ...)
             self.generic_visit(node)
 
     V().visit(tree)
